@@ -127,6 +127,18 @@ def coq_props(prop_file):
         return p.returncode == 0, p.stdout + p.stderr
 
 
+def coqchk(prop_file):
+    """Re-check the compiled property file and everything it depends on with Coq's independent
+    checker; returns (ok, summary)."""
+    mod = "RS." + prop_file[:-2].replace("/", ".")
+    p = sh(["coqchk", "-silent", "-o", "-Q", ".", "RS", mod], cwd=COQ, timeout=1800)
+    out = p.stdout + p.stderr
+    summ = out[out.find("CONTEXT SUMMARY"):] if "CONTEXT SUMMARY" in out else out[-800:]
+    need = ["Axioms: <none>", "type-in-type: <none>", "unsafe (co)fixpoints: <none>", "positivity is assumed: <none>"]
+    ok = p.returncode == 0 and all(n in re.sub(r"\s+", " ", summ) for n in need)
+    return ok, " ".join(summ.split())[:600]
+
+
 ALLOWED_AXIOMS = set()   # stdlib-only development: expected to stay empty
 
 
